@@ -1174,6 +1174,8 @@ class SyncObj(object):
             self.__raftNextIndex[node] = self.__getCurrentLogIndex() + 1
             self.__raftMatchIndex[node] = 0
             self.__lastResponseTime[node] = monotonicTime()
+            # A snapshot transfer left over from an earlier leadership must not be continued in the middle
+            self.__serializer.cancelTransmisstion(node)
 
         # No-op command after leader election.
         idx, term = self.__getCurrentLogIndex() + 1, self.__raftCurrentTerm
